@@ -216,13 +216,19 @@ def module_fn(ex, st, mod, attr, e, cx, k):
         return k(st, SV(OPAQUE, I(0)))
     if mod == 'os.path*':
         # path manipulation is opaque: some string / some boolean (the file system is outside the contract)
+        # path functions are deterministic functions of their arguments (the file system does not change during a call)
         def f(st, vs):
-            if attr == 'exists':
-                return k(st, ex.fresh(BOOL, 'exists'))
+            zs = [v.z for v in vs]
+            if not all(z.sort() == z3.StringSort() for z in zs):
+                raise VCError(f'os.path.{attr} on non-string arguments')
+            if attr in ('exists', 'isfile', 'isdir'):
+                return k(st, SV(BOOL, ex.uf('path_' + attr, *([z3.StringSort()] * len(zs)), z3.BoolSort())(*zs)))
             if attr == 'splitext':
+                a = ex.uf('path_splitext0', z3.StringSort(), z3.StringSort())(zs[0])
+                b = ex.uf('path_splitext1', z3.StringSort(), z3.StringSort())(zs[0])
                 ty = T.tup(STR, STR)
-                return k(st, ex.fresh(ty, 'splitext'))
-            return k(st, ex.fresh(STR, 'path'))
+                return k(st, SV(ty, T.sort_of(ty).mk(a, b)))
+            return k(st, SV(STR, ex.uf(f'path_{attr}{len(zs)}', *([z3.StringSort()] * len(zs)), z3.StringSort())(*zs)))
         return ex.ev_list(st, args, cx, f)
     if mod == 'os' or mod.startswith('os.'):
         raise VCError(f'os function {attr} needs an assumed contract')
